@@ -27,6 +27,7 @@ const (
 	xObj
 	xArr
 	xAny // any JSON value (reflected payloads)
+	xComplex // a string "<re><+ unless im is negative or NaN><im>i" whose two parts are the given floats
 )
 
 type vExp struct {
@@ -36,6 +37,9 @@ type vExp struct {
 	u    uint64
 	f64  float64
 	f32  float32
+	re   float64
+	im   float64
+	bits int
 	s    []byte
 	obj  []vExpMember
 	arr  []*vExp
@@ -101,6 +105,12 @@ func vMatch(where string, got *vrt.JVal, want *vExp) {
 		vrt.Assert(where+":string", got.Kind == vrt.JStr && string(got.Str) == string(want.s))
 	case xAnyStr:
 		vrt.Assert(where+":some-string", got.Kind == vrt.JStr)
+	case xComplex:
+		if got.Kind != vrt.JStr {
+			vrt.Fail(where + ":complex-as-string")
+			return
+		}
+		vrt.Assert(where+":complex-parts-recoverable", vComplexMatches(got.Str, want.re, want.im, want.bits))
 	case xAnyNum:
 		vrt.Assert(where+":some-number", got.Kind == vrt.JNum)
 	case xAny:
@@ -193,6 +203,66 @@ func vMatchFloat(where string, got *vrt.JVal, f float64, bits int) {
 		p, err := strconv.ParseFloat(string(got.Num), bits)
 		vrt.Assert(where+":float-bits", err == nil && math.Float64bits(p) == math.Float64bits(f))
 	}
+}
+
+// vComplexMatches: s is <real part><'+' unless the imaginary part is negative or NaN><imaginary part>'i', each part
+// being the float (by value token under the engine, by strconv's text natively) or NaN / +Inf / -Inf spelled out.
+func vComplexMatches(s []byte, re, im float64, bits int) bool {
+	if !vrt.Symbolic() {
+		want := strconv.FormatFloat(re, 'f', -1, bits)
+		if im >= 0 {
+			want += "+"
+		}
+		want += strconv.FormatFloat(im, 'f', -1, bits) + "i"
+		return string(s) == want
+	}
+	pos := 0
+	part := func(f float64) bool {
+		lit := ""
+		switch {
+		case f != f:
+			lit = "NaN"
+		case f > math.MaxFloat64:
+			lit = "+Inf"
+		case f < -math.MaxFloat64:
+			lit = "-Inf"
+		}
+		if lit != "" {
+			if pos+len(lit) > len(s) || string(s[pos:pos+len(lit)]) != lit {
+				return false
+			}
+			pos += len(lit)
+			return true
+		}
+		if pos < len(s) && s[pos] == '-' {
+			pos++ // the sign of a finite value is written in front of its digits (the value below carries it too)
+		}
+		if pos >= len(s) {
+			return false
+		}
+		tv, tb, ok := vrt.TokFloat(s[pos])
+		if !ok || tb != bits || math.Float64bits(tv) != math.Float64bits(f) {
+			return false
+		}
+		id := vrt.TokID(s[pos])
+		for pos < len(s) && vrt.TokID(s[pos]) == id {
+			pos++
+		}
+		return true
+	}
+	if !part(re) {
+		return false
+	}
+	if im >= 0 {
+		if pos >= len(s) || s[pos] != '+' {
+			return false
+		}
+		pos++
+	}
+	if !part(im) {
+		return false
+	}
+	return pos == len(s)-1 && s[pos] == 'i'
 }
 
 // ---- marshalers used as field payloads
@@ -382,11 +452,11 @@ func vMakeField(id string, sel int, key string, ref *vRefEnc, cfg *EncoderConfig
 		return Field{Key: key, Type: BinaryType, Interface: v}
 	case 12:
 		re, im := vrt.Float64(id+".re"), vrt.Float64(id+".im")
-		ref.add(key, &vExp{kind: xAnyStr})
+		ref.add(key, &vExp{kind: xComplex, re: re, im: im, bits: 64})
 		return Field{Key: key, Type: Complex128Type, Interface: complex(re, im)}
 	case 13:
 		re, im := vrt.Float32(id+".re32"), vrt.Float32(id+".im32")
-		ref.add(key, &vExp{kind: xAnyStr})
+		ref.add(key, &vExp{kind: xComplex, re: float64(re), im: float64(im), bits: 32})
 		return Field{Key: key, Type: Complex64Type, Interface: complex(re, im)}
 	case 14:
 		d := vrt.Int64(id + ".dur")
